@@ -256,6 +256,8 @@ def env_generator_attrs(ctx: Ctx):
     cvrptw_windows(ctx)
     fjsp_eligibility(ctx)
     shape_counts(ctx)
+    job_op_ranges(ctx)
+    mtvrp_demand_classes(ctx)
     # C18.f: MTVRP generator -- time windows / service times are times, built from distances through the speed
     from .. import units
     menv = EnvA(ctx.repo, T.ALL_ENVS["MTVRPEnv"], "MTVRPEnv")
@@ -264,6 +266,85 @@ def env_generator_attrs(ctx: Ctx):
         raise AnalysisError("MTVRPGenerator._generate not analysable")
     ctx.fn(gsl_.fi)
     units.obligations(ctx, "C18.f", "MTVRPGenerator._generate", gsl_.it, gsl_.fr, gsl_.where, 15, declared_out=units.MTVRP_CELLS)
+
+
+def job_op_ranges(ctx: Ctx):
+    """C18.k FJSP / JSSP: the operations of job j are the index range [start_j, end_j] with
+    end = cumsum(n_ops) - 1, start_0 = 0, start_j = end_{j-1} + 1 and n_ops = randint(min_ops, max_ops + 1): consecutive,
+    non-overlapping, covering exactly the sampled number of operations."""
+    for cname in ("FJSPEnv", "JSSPEnv"):
+        env = EnvA(ctx.repo, T.ALL_ENVS[cname], cname)
+        g, gsl = generator_slot(ctx.repo, env.cls)
+        if gsl is None or not isinstance(gsl.fr.ret, vg.TD):
+            raise AnalysisError(f"{cname}: generator not analysable")
+        ctx.fn(gsl.fi)
+        end, start = gsl.fr.ret.cells.get("end_op_per_job"), gsl.fr.ret.cells.get("start_op_per_job")
+        if end is None or start is None:
+            raise AnalysisError(f"{cname}: start/end_op_per_job not generated")
+        pe = nf.poly(end)
+        cums = [a for a in pe.atoms() if (a.op == "meth" and a.args[1] == "cumsum") or nf._fn(a) == "torch.cumsum"]
+        ok_end = len(cums) == 1 and pe == nf.Poly.atom(cums[0]) - nf.Poly.const(1) and nf.axis_is(cums[0], 1)
+        n_ops = nf.strip(cums[0].args[0] if cums[0].op == "meth" else cums[0].args[1]) if cums else None
+        ok_n = False
+        if n_ops is not None and nf._fn(n_ops) == "torch.randint":
+            from ..bounds import Prover
+            lo, hi = Prover._randint(n_ops)
+            ok_n = lo is not None and hi is not None and nf.poly(lo) == nf.poly(vg.mk("selfattr", "min_ops_per_job")) and nf.poly(hi) - nf.Poly.const(1) == nf.poly(vg.mk("selfattr", "max_ops_per_job"))
+        ctx.ob("C18.k", f"{g.name}:end_op = cumsum(n_ops) - 1", ok_end and ok_n, gsl.where,
+               f"end_op_per_job = {pe.show(2)} along the job axis: {ok_end}; n_ops = randint(min_ops_per_job, max_ops_per_job + 1): {ok_n}", construct=f"{g.name}._generate:end-op")
+        st = nf.strip(start)
+        ok_st, why = False, "start_op_per_job is not cat((zeros, end[:, :-1] + 1), 1)"
+        if nf._fn(st) in ("torch.cat", "torch.concat") and nf.axis_is(st, 1):
+            items = nf._seq_items(st.args[1])
+            if items and len(items) == 2:
+                z = nf.strip(items[0])
+                zero = nf._fn(z) in ("torch.zeros", "torch.zeros_like")
+                p1 = nf.poly(items[1])
+                subs = [a for a in p1.atoms() if a.op == "sub"]
+                shifted = False
+                if len(subs) == 1 and p1 == nf.Poly.atom(subs[0]) + nf.Poly.const(1):
+                    sb = subs[0]
+                    idx = sb.args[1].args if sb.args[1].op == "tuple" else (sb.args[1],)
+                    last = idx[-1]
+                    drop_last = last.op == "slice" and vg.is_none(last.args[0]) and vg.is_const(last.args[1], -1) and vg.is_none(last.args[2]) and len(idx) == 2
+                    shifted = drop_last and nf.poly(sb.args[0]) == pe
+                ok_st = zero and shifted
+                why = f"start = cat((zeros: {zero}, end[:, :-1] + 1: {shifted}), 1)"
+        ctx.ob("C18.k", f"{g.name}:start_op = previous end + 1", ok_st, gsl.where, why, construct=f"{g.name}._generate:start-op")
+
+
+def mtvrp_demand_classes(ctx: Ctx):
+    """C18.k MTVRP: every customer is a linehaul or a backhaul, never both: the two demand vectors are masked by one indicator
+    and its negation; the documented unscaled capacity is a copy taken before the in-place rescaling."""
+    env = EnvA(ctx.repo, T.ALL_ENVS["MTVRPEnv"], "MTVRPEnv")
+    g, gsl = generator_slot(ctx.repo, env.cls)
+    if gsl is None or not isinstance(gsl.fr.ret, vg.TD):
+        raise AnalysisError("MTVRPGenerator._generate not analysable")
+    cells = gsl.fr.ret.cells
+
+    def mask_of(v):
+        """the boolean factor of the customer block of a demand vector, with its polarity"""
+        out = []
+        for n in vg.walk(v):
+            if n.op == "*" and len(n.args) == 2:
+                for x in n.args:
+                    lv = nf.boolwalk(x, set())
+                    if len(lv) == 1 and lv[0].cmp() is not None and any(nf._fn(a) in ("torch.rand", "torch.rand_like") for a in lv[0].cmp()[0].atoms()):
+                        out.append(lv[0])
+        return out
+    ml, mb = mask_of(cells.get("demand_linehaul")), mask_of(cells.get("demand_backhaul"))
+    ok, why = False, f"class indicators not found ({len(ml)}, {len(mb)})"
+    if ml and mb:
+        a, b = ml[0], mb[0]
+        same_draw = a.node is b.node
+        ok = same_draw and a.sign == -b.sign and a.sign != 0
+        why = f"linehaul demand * [{'+' if a.sign > 0 else '-'}]({vg.show(a.node, 3)}), backhaul demand * [{'+' if b.sign > 0 else '-'}](same draw: {same_draw}): complementary: {ok}"
+    ctx.ob("C18.k", "MTVRPGenerator:linehaul-xor-backhaul", ok, gsl.where, why, construct="MTVRPGenerator.generate_demands:complementary-classes")
+    co = cells.get("capacity_original")
+    okc = co is not None and not any(n.op in ("/", "*") for n in vg.walk(co)) and nf._fn(nf.strip(co)) in ("torch.full", "torch.full_like")
+    ctx.ob("C18.k", "MTVRPGenerator:capacity_original-unscaled", okc, gsl.where,
+           f"capacity_original = {vg.show(co, 3) if co is not None else None}: the plain constructor value (a copy taken before `vehicle_capacity /= vehicle_capacity`)",
+           construct="MTVRPGenerator._generate:capacity-original")
 
 
 def shape_counts(ctx: Ctx):
